@@ -5,6 +5,7 @@
 -/
 import ASV.Proofs.Members
 import ASV.Proofs.RegionsSort
+import ASV.Proofs.RegionsRingOrder
 import ASV.Model.DeterminismAreas
 import ASV.Spec.Determinism
 set_option linter.unusedSectionVars false
@@ -331,6 +332,14 @@ theorem sectionsOfE_eq_of_perm (enum : List Feat → List Feat) (wrap : Option I
 theorem separatingKey_line {len : Int} {l : List Feat} (hl : ∀ a ∈ l, LineArea len a.loc)
     (hd : ∀ a ∈ l, ∀ b ∈ l, lineKey a.loc = lineKey b.loc → a = b) : SeparatingKey (fun a => lineKey a.loc) l :=
   ⟨fun x hx y hy => collectionLt_line (hl y hy) (hl x hx), hd⟩
+
+/-- on a circular record (C06's `collectionLt_ring`): well-formed areas — single parts inside the record or
+    origin-spanning two-part areas —, none of them a single part covering the whole record, no two with the same
+    (first base going round from the origin, length) -/
+theorem separatingKey_ring {L : Int} {l : List Feat} (hl : ∀ a ∈ l, RingArea L a.loc)
+    (hfull : ∀ a ∈ l, ∀ p, a.loc = .simple p → ¬ (p.lo = 0 ∧ p.hi = L))
+    (hd : ∀ a ∈ l, ∀ b ∈ l, ringKey L a.loc = ringKey L b.loc → a = b) : SeparatingKey (fun a => ringKey L a.loc) l :=
+  ⟨fun x hx y hy => collectionLt_ring (hl y hy) (hl x hx) (hfull y hy), hd⟩
 
 end regions
 
